@@ -951,6 +951,13 @@ func c05Dispatch(line []byte) any {
 		Kind string `json:"kind"`
 	}
 	_ = json.Unmarshal(line, &kd)
+	if kd.Kind == "writev" {
+		var wc c05WritevCase
+		if err := json.Unmarshal(line, &wc); err != nil {
+			return c05WritevResult{Writev: true, Panic: "bad case: " + err.Error()}
+		}
+		return c05RunWritev(&wc)
+	}
 	if kd.Kind == "splice" {
 		var sc c05SpliceCase
 		if err := json.Unmarshal(line, &sc); err != nil {
